@@ -1114,7 +1114,7 @@ class XsdGroup(XsdComponent, MutableSequence[ModelParticleType],
             elem.attrib.update(raw_encode_attributes(obj.attributes))
 
         index = cdata_index = 0
-        wrong_content_type = False
+        wrong_content_type = cdata_between = False
         over_max_depth = context.max_depth is not None and context.max_depth <= context.level
         model = self.get_model_visitor()
 
@@ -1143,6 +1143,8 @@ class XsdGroup(XsdComponent, MutableSequence[ModelParticleType],
                     text = text + value if text is not None else value
                 else:
                     children[-1].tail = value
+                    if isinstance(value, str) and value.strip():
+                        cdata_between = True
                 cdata_index += 1
                 continue
 
@@ -1201,7 +1203,7 @@ class XsdGroup(XsdComponent, MutableSequence[ModelParticleType],
             reason = _("wrong content type {!r}").format(type(obj.content))
             context.validation_error(validation, self, reason, elem)
 
-        if not self.mixed and text and text.strip() and self and \
+        if not self.mixed and (text and text.strip() or cdata_between) and self and \
                 (len(self) > 1 or not isinstance(self[0], XsdAnyElement)):
             reason = _("character data between child elements not allowed")
             context.validation_error(validation, self, reason, elem)
